@@ -228,7 +228,7 @@ Other ==
   /\ \/ IsE("s", {"rev", "ready"})
      \/ IsE("r", {"reest", "ready"})
      \/ (Is("E") /\ E.io = "d")
-     \/ Is("Disc") \/ Is("Abort")
+     \/ Is("Disc") \/ Is("Abort") \/ Is("Note")
   /\ UNCHANGED <<pl, st, hs, wire>>
 
 \* ---- faults -----------------------------------------------------------------------
